@@ -145,11 +145,9 @@ fn lang_only_eq_cldr_09() { lang_only_chunk!(9, EXPECTED_LANG_ONLY_09) }
 fn lang_only_eq_cldr_10() { lang_only_chunk!(10, EXPECTED_LANG_ONLY_10) }
 #[kani::proof]
 #[kani::unwind(10)]
-#[kani::solver(minisat)]
 fn lang_only_eq_cldr_11() { lang_only_chunk!(11, EXPECTED_LANG_ONLY_11) }
 #[kani::proof]
 #[kani::unwind(10)]
-#[kani::solver(kissat)]
 fn lang_only_eq_cldr_12() { lang_only_chunk!(12, EXPECTED_LANG_ONLY_12) }
 #[kani::proof]
 #[kani::unwind(10)]
